@@ -222,10 +222,6 @@ def _char_result(p):
 
 def printable_chars(rule, crate, dialect):
     """Every printable ASCII character, in the form the printer writes it, is read back as itself."""
-    esc = crate.static_bytes("print::ELISP_ESCAPE_CHARS") if dialect == "elisp" else []
-    if esc is None:
-        rule.anchor_missing("print::ELISP_ESCAPE_CHARS")
-        return
     # the printable range comes from the writer: (32..127).contains(&n)
     wf = crate.fn("print::write_elisp_char" if dialect == "elisp" else "print::write_scheme_char")
     rf = crate.fn("parse::read::parse_elisp_char" if dialect == "elisp" else "parse::read::parse_r6rs_char")
